@@ -751,6 +751,14 @@ class Inliner:
             return None
         return cf if self.is_own(cf) else None
 
+    def member_type(self, field_id):
+        if not hasattr(self, '_ftypes'):
+            self._ftypes = {}
+            for r in self.tu.records.values():
+                for f in r.get('fields', []) or []:
+                    self._ftypes[f['id']] = f.get('ct')
+        return self._ftypes.get(field_id)
+
     def dtor_of(self, type_name):
         if not hasattr(self, '_dtors'):
             self._dtors = {}
@@ -805,9 +813,9 @@ class Inliner:
                 self.at = (blk.id, st)
             n = tu.node(e[1]) if e[0] == 'S' else None
             cf = self.callee(n)
-            if e[0] == 'AD':
-                # end of the lifetime of a local object of an own class: its destructor runs here
-                df = self.dtor_of(e[3])
+            if e[0] in ('AD', 'MD'):
+                # end of the lifetime of a local object / of a member (in a destructor) of an own class: its destructor runs here
+                df = self.dtor_of(e[3] if e[0] == 'AD' else self.member_type(e[1]))
                 if df is not None and not any(x['id'] == df['id'] for x in self.stack) and len(self.stack) < self.max_depth:
                     outs = []
                     for rs1 in hooks.pre_call(None, df, [], rs):
